@@ -856,7 +856,10 @@ func replayEnv(t *testing.T, e *hx.Envelope, times int) {
 }
 
 func TestRegress(t *testing.T) {
-	for _, e := range hx.Regressions() {
+	for i, e := range hx.Regressions() {
+		if i%hx.NShards != hx.Shard {
+			continue // every stored case runs on one shard of each run
+		}
 		replayEnv(t, e, 2)
 		hx.Label("regress")
 	}
